@@ -19,57 +19,157 @@ const configPkg = modPath + "/cmds/server/config"
 func boolTable(fn *ssa.Function) (map[string]bool, bool) {
 	out := map[string]bool{}
 	okAll := true
-	var walk func(b *ssa.BasicBlock, tags []string, depth int)
-	walk = func(b *ssa.BasicBlock, tags []string, depth int) {
-		if depth > 32 {
-			okAll = false
-			return
-		}
-		switch t := b.Instrs[len(b.Instrs)-1].(type) {
-		case *ssa.Return:
-			c, ok := t.Results[0].(*ssa.Const)
-			if !ok || c.Value == nil {
-				okAll = false
-				return
-			}
-			key := strings.Join(tags, ",")
-			out[key] = c.Value.ExactString() == "true"
-		case *ssa.Jump:
-			walk(b.Succs[0], tags, depth+1)
-		case *ssa.If:
-			tag := ""
-			switch c := t.Cond.(type) {
-			case *ssa.BinOp:
-				if lc, ok := c.X.(*ssa.Call); ok {
-					if bi, ok := lc.Common().Value.(*ssa.Builtin); ok && bi.Name() == "len" {
-						if k, ok := constInt(c.Y); ok && ((c.Op == token.LSS && k == 1) || (c.Op == token.EQL && k == 0)) {
-							tag = "empty"
-						}
-					}
-				}
-			case *ssa.Extract:
-				if ta, ok := c.Tuple.(*ssa.TypeAssert); ok && c.Index == 1 && typeIs(ta.AssertedType, "net", "TCPAddr") {
-					tag = "tcp"
-				}
-			case *ssa.Call:
-				if f := c.Common().StaticCallee(); f != nil && f.Signature.Results().Len() == 1 {
-					tag = "match"
-				}
-			}
-			if tag == "" {
-				okAll = false
-				return
-			}
-			walk(b.Succs[0], append(append([]string{}, tags...), tag+"=T"), depth+1)
-			walk(b.Succs[1], append(append([]string{}, tags...), tag+"=F"), depth+1)
-		default:
-			okAll = false
-		}
-	}
 	if fn == nil || fn.Blocks == nil {
 		return nil, false
 	}
-	walk(fn.Blocks[0], nil, 0)
+	// atomOf: the three questions a filter test asks
+	atomOf := func(v ssa.Value) string {
+		switch c := v.(type) {
+		case *ssa.BinOp:
+			if lc, ok := c.X.(*ssa.Call); ok {
+				if bi, ok := lc.Common().Value.(*ssa.Builtin); ok && bi.Name() == "len" {
+					if k, ok := constInt(c.Y); ok && ((c.Op == token.LSS && k == 1) || (c.Op == token.EQL && k == 0)) {
+						return "empty"
+					}
+				}
+			}
+		case *ssa.Extract:
+			if ta, ok := c.Tuple.(*ssa.TypeAssert); ok && c.Index == 1 && typeIs(ta.AssertedType, "net", "TCPAddr") {
+				return "tcp"
+			}
+		case *ssa.Call:
+			if _, isBuiltin := c.Common().Value.(*ssa.Builtin); !isBuiltin {
+				if f := c.Common().StaticCallee(); f != nil && f.Signature.Results().Len() == 1 {
+					if b, ok := f.Signature.Results().At(0).Type().Underlying().(*types.Basic); ok && b.Kind() == types.Bool {
+						return "match"
+					}
+				}
+			}
+		}
+		return ""
+	}
+	// eval: the value of a boolean expression on this path under the answers given so far; need names the
+	// question whose answer is missing
+	var eval func(v ssa.Value, path []*ssa.BasicBlock, ans map[string]bool, depth int) (val bool, need string, ok bool)
+	eval = func(v ssa.Value, path []*ssa.BasicBlock, ans map[string]bool, depth int) (bool, string, bool) {
+		if depth == 0 {
+			return false, "", false
+		}
+		if a := atomOf(v); a != "" {
+			if x, known := ans[a]; known {
+				return x, "", true
+			}
+			return false, a, true
+		}
+		switch x := v.(type) {
+		case *ssa.Const:
+			if x.Value == nil {
+				return false, "", false
+			}
+			return x.Value.ExactString() == "true", "", true
+		case *ssa.UnOp:
+			if x.Op == token.NOT {
+				b, need, ok := eval(x.X, path, ans, depth-1)
+				return !b, need, ok
+			}
+		case *ssa.Phi:
+			at := -1
+			for i := len(path) - 1; i >= 0; i-- {
+				if path[i] == x.Block() {
+					at = i
+					break
+				}
+			}
+			if at <= 0 {
+				return false, "", false
+			}
+			for i, pr := range x.Block().Preds {
+				if pr == path[at-1] {
+					return eval(x.Edges[i], path[:at], ans, depth-1)
+				}
+			}
+		}
+		return false, "", false
+	}
+	var walk func(b *ssa.BasicBlock, tags []string, ans map[string]bool, path []*ssa.BasicBlock, depth int)
+	fork := func(need string, tags []string, ans map[string]bool, f func(tags []string, ans map[string]bool)) {
+		for _, tv := range []bool{true, false} {
+			a2 := map[string]bool{}
+			for k, v := range ans {
+				a2[k] = v
+			}
+			a2[need] = tv
+			t := "=F"
+			if tv {
+				t = "=T"
+			}
+			f(append(append([]string{}, tags...), need+t), a2)
+		}
+	}
+	walk = func(b *ssa.BasicBlock, tags []string, ans map[string]bool, path []*ssa.BasicBlock, depth int) {
+		if depth > 48 {
+			okAll = false
+			return
+		}
+		path = append(append([]*ssa.BasicBlock{}, path...), b)
+		switch t := b.Instrs[len(b.Instrs)-1].(type) {
+		case *ssa.Return:
+			if len(t.Results) == 0 {
+				okAll = false
+				return
+			}
+			val, need, ok := eval(t.Results[0], path, ans, 12)
+			if !ok {
+				okAll = false
+				return
+			}
+			if need != "" {
+				fork(need, tags, ans, func(tg []string, a map[string]bool) {
+					v2, n2, ok2 := eval(t.Results[0], path, a, 12)
+					if !ok2 || n2 != "" {
+						okAll = false
+						return
+					}
+					out[strings.Join(tg, ",")] = v2
+				})
+				return
+			}
+			out[strings.Join(tags, ",")] = val
+		case *ssa.Jump:
+			walk(b.Succs[0], tags, ans, path, depth+1)
+		case *ssa.If:
+			val, need, ok := eval(t.Cond, path, ans, 12)
+			if !ok {
+				dbg("boolTable %s: cannot evaluate condition %T %v in block %d", fn.Name(), t.Cond, t.Cond, b.Index)
+				okAll = false
+				return
+			}
+			if need != "" {
+				fork(need, tags, ans, func(tg []string, a map[string]bool) {
+					v2, n2, ok2 := eval(t.Cond, path, a, 12)
+					if !ok2 || n2 != "" {
+						okAll = false
+						return
+					}
+					if v2 {
+						walk(b.Succs[0], tg, a, path, depth+1)
+					} else {
+						walk(b.Succs[1], tg, a, path, depth+1)
+					}
+				})
+				return
+			}
+			if val {
+				walk(b.Succs[0], tags, ans, path, depth+1)
+			} else {
+				walk(b.Succs[1], tags, ans, path, depth+1)
+			}
+		default:
+			dbg("boolTable %s: block %d ends in %T", fn.Name(), b.Index, t)
+			okAll = false
+		}
+	}
+	walk(fn.Blocks[0], nil, map[string]bool{}, nil, 0)
 	return out, okAll
 }
 
@@ -470,6 +570,24 @@ func ruleAdmit(p *Program, r *Result) {
 					"the lookup order is not deny -> allow -> providers with refusal on the blocking edges: a denied address could be admitted by the allow list or by a provider")
 				dt, ok1 := boolTable(denyCall.Common().StaticCallee())
 				at, ok2 := boolTable(allowCall.Common().StaticCallee())
+				// the tests written over small helpers (empty, lookup, record): read them with the helpers folded in,
+				// keeping the prefix match itself a call
+				keepMatch := func(f *ssa.Function) bool {
+					// the function that walks the prefixes: it loops, and asks IPNet.Contains itself or through a helper
+					loops := false
+					for _, b := range f.Blocks {
+						if blockReachFromSelf(b) {
+							loops = true
+						}
+					}
+					return loops && reachesContains(f, 3)
+				}
+				if !(ok1 && sameTable(dt, denyTable)) {
+					dt, ok1 = boolTable(p.viewKeeping(p.orig(denyCall.Common().StaticCallee()), keepMatch))
+				}
+				if !(ok2 && sameTable(at, allowTable)) {
+					at, ok2 = boolTable(p.viewKeeping(p.orig(allowCall.Common().StaticCallee()), keepMatch))
+				}
 				r.cond(ok1 && sameTable(dt, denyTable), "R-ADMIT", key+":deny-semantics", p.Pos(denyCall.Pos()),
 					"the deny test: empty list = no opinion (false); non-TCP address = refused (true); otherwise true iff a prefix matches",
 					fmt.Sprintf("the deny test does not have the truth table {empty:false, non-TCP:true, match:true, else:false}: %v", dt))
@@ -683,8 +801,20 @@ func ruleBuildScopes(p *Program, r *Result) {
 			mk, isFresh := mu.Map.(*ssa.MakeMap)
 			freshPerScope := isFresh && blockReachFromSelf(mk.Block())
 			// value: NewAAA(...) built in this iteration
-			vcall, isCall := mu.Value.(*ssa.Call)
-			built := isCall && vcall.Common().StaticCallee() != nil && vcall.Common().StaticCallee().Name() == "NewAAA"
+			built := false
+			nBuilt := 0
+			for _, src := range phiSources(mu.Value) {
+				if isNilConst(src) {
+					continue // the 'no AAA for this user' answer of a folded helper: that path skips the store
+				}
+				vcall, isCall := src.(*ssa.Call)
+				if isCall && vcall.Common().StaticCallee() != nil && vcall.Common().StaticCallee().Name() == "NewAAA" && blockReachFromSelf(vcall.Block()) {
+					nBuilt++
+				} else {
+					nBuilt = -100
+				}
+			}
+			built = nBuilt > 0
 			// guarded by HasScope(provider.Name) == true and preceded by LocalizeToScope(provider.Name)
 			var has, loc *ssa.Call
 			for _, c := range allCalls(build) {
@@ -910,4 +1040,30 @@ func describeValue(v ssa.Value) string {
 		return "a result of a call"
 	}
 	return fmt.Sprintf("a %T", v)
+}
+
+// callsNamedContains: the calls of f to (*net.IPNet).Contains (f is the prefix match itself).
+func callsNamedContains(f *ssa.Function) []ssa.CallInstruction {
+	var out []ssa.CallInstruction
+	for _, c := range allCalls(f) {
+		if g := c.Common().StaticCallee(); g != nil && g.Name() == "Contains" && typeIsRecv(g, "net", "IPNet") {
+			out = append(out, c)
+		}
+	}
+	return out
+}
+
+func reachesContains(f *ssa.Function, depth int) bool {
+	if f == nil || depth == 0 {
+		return false
+	}
+	if len(callsNamedContains(f)) > 0 {
+		return true
+	}
+	for _, c := range allCalls(f) {
+		if g := c.Common().StaticCallee(); g != nil && g.Pkg == f.Pkg && g != f && reachesContains(g, depth-1) {
+			return true
+		}
+	}
+	return false
 }
